@@ -22,7 +22,7 @@ def run(ctx):
     ctx.differential("c11", 1500 if quick else 40000,
                      nontrivial=lambda req, resp: " i " in req and (" l " in req or " c " in req))
     # measured: compiled programs through `go tool asm -S` and binutils objdump
-    ctx.differential("c11asm", 300 if quick else 6000, extra=["-work", ctx.dir],
+    ctx.differential("c11asm", 300 if quick else 10000, extra=["-work", ctx.dir], max_report=1000,
                      nontrivial=lambda req, resp: req.startswith("accept-asm") and " i " in req)
     ctx.coverage["rule"] = (
         "generated ir.Files (functions x data sections x constraints x includes; node lists with any interleaving of "
